@@ -76,4 +76,41 @@ def parseAll (g : G) (attrs : List A) : Option Parsed :=
   | some p => if g = .debugEnum && p.fmt.isSome then none else some p
   | none => none
 
+/-! ### Field attributes of Debug (`debug.rs`: `FieldAttribute = Either<attr::Skip, FmtAttribute>`, `validate_attrs`) -/
+
+/-- One `#[debug(...)]` attribute on a field. -/
+inductive FA where
+  | skip (ignoreSpelling : Bool)     -- `skip` / `ignore`
+  | fmt                              -- `"literal", args…`
+  | unreadable                       -- anything else: another identifier, `bound(..)`, `fmt = ".."`, `#[debug]`, …
+  deriving Repr, DecidableEq, Inhabited
+
+inductive FieldKind where
+  | skip | fmt
+  deriving Repr, DecidableEq, Inhabited
+
+def parseFA : FA → Option FieldKind
+  | .skip _ => some .skip
+  | .fmt => some .fmt
+  | .unreadable => none
+
+/-- `FieldAttribute::parse_attrs`: both alternatives of the `Either` refuse a second attribute ("only single …
+allowed"), two different ones are "only single kind …": a field takes at most one attribute.
+`none`: the derive fails; `some none`: no attribute. -/
+def parseField : List FA → Option (Option FieldKind)
+  | [] => some none
+  | [a] => (parseFA a).map some
+  | _ :: _ :: _ => none
+
+/-- A struct or an enum variant deriving Debug is accepted as far as its field attributes go: every field's
+attributes parse, and no field has a format when the struct / variant has one (`validate_attrs`).
+`cf`: the struct or variant has its own format. -/
+def fieldOk (cf : Bool) (l : List FA) : Bool :=
+  match parseField l with
+  | none => false
+  | some (some .fmt) => !cf
+  | some _ => true
+
+def debugFieldsOk (cf : Bool) (fields : List (List FA)) : Bool := fields.all (fieldOk cf)
+
 end Dm.FmtContainer
